@@ -268,7 +268,9 @@ def run(sim, plan):
             # only inject on a link that is up and stays up (no fault within the next second)
             if peer is None or not peer.open or ep.state != "CONNECTED_SELECTED":
                 continue
-            if any(abs((t_base + ft) - sim.now) < 1.0 for ft, _k in plan["faults"]):
+            # (planned fault times may already be overdue when an earlier fault took long to play out)
+            pending_faults = [t_base + ft for ft, _k in plan["faults"]][len(fault_times):]
+            if any(ft < sim.now + 1.0 for ft in pending_faults) or any(abs(ft - sim.now) < 1.0 for ft in fault_times):
                 continue
             n_unsol += 1
             system = 0x70000000 + n_unsol
